@@ -109,9 +109,10 @@ func (k Keeper) IterateConsensusStates(
 	for ; iterator.Valid(); iterator.Next() {
 		key := iterator.Key()
 
-		keySplit := strings.Split(string(key), "/")
+		// the height is 16 raw bytes and may itself contain the separator
+		keySplit := strings.SplitN(string(key), "/", 4)
 		// consensus key is in the format "clients/<chainName>/consensusStates/<height>"
-		if len(keySplit) != 4 || keySplit[2] != string(host.KeyConsensusStatePrefix) {
+		if len(keySplit) != 4 || keySplit[2] != string(host.KeyConsensusStatePrefix) || len(keySplit[3]) != 16 {
 			continue
 		}
 		chainName := keySplit[1]
